@@ -55,7 +55,7 @@ fn main() {
             let mut t = Tape::new(&tape);
             let name = format!("g{}", specs.len());
             if mode == "twins" {
-                if let Some(a) = vcore::treegen::gen_ambiguous(&mut t, &name) {
+                if let Some(a) = vcore::treegen::gen_ambiguous_kind(&mut t, &name, Some(specs.len())) {
                     meta.push(serde_json::json!({ "kind": a.kind, "needs_expansion": a.needs_expansion,
                         "ambiguous": vcore::codegen::spec_to_json(&a.ambiguous) }));
                     specs.push(a.twin);
